@@ -33,6 +33,8 @@ def run(tier, seed, pid="C02"):
             vlib.require_mc_ok(r, cfg)
             o.add_mc(cfg, r)
     qc.quorum_arith(o)
+    if thorough:
+        qc.quorum_proof(o)
     # stage 1-3
     gen = []
     for k, (inst, byz) in enumerate([(1, "3"), (0, "0")] if not thorough else [(1, "3"), (0, "0"), (2, "1"), (3, "")]):
